@@ -50,17 +50,28 @@ theorem set_set_perm [DecidableEq α] (l : List α) (i j : Nat) (hi : i < l.leng
     by_cases e1 : l[i] = z <;> by_cases e2 : l[j] = z <;> simp only [e1, e2, if_true, if_false] <;>
       (try rw [e1] at h1) <;> (try rw [e2] at h2) <;> omega
 
-theorem pySwap_perm [DecidableEq α] (l : List α) (i j : Nat) : (pySwap l i j).Perm l := by
-  unfold pySwap
-  split
+theorem pySwap?_perm [DecidableEq α] (l out : List α) (i j : Nat) (h : pySwap? l i j = some out) :
+    out.Perm l ∧ out.length = l.length := by
+  unfold pySwap? at h
+  split at h
   · next x y hx hy =>
     obtain ⟨hj, rfl⟩ := List.getElem?_eq_some_iff.1 hx
     obtain ⟨hi, rfl⟩ := List.getElem?_eq_some_iff.1 hy
-    exact set_set_perm l i j hi hj
-  · exact List.Perm.refl _
+    cases h
+    exact ⟨set_set_perm l i j hi hj, by simp⟩
+  · cases h
 
-theorem pySwap_length (l : List α) (i j : Nat) : (pySwap l i j).length = l.length := by
-  unfold pySwap; split <;> simp
+/-- inside the list the exchange does not raise; outside it does -/
+theorem pySwap?_isSome (l : List α) (i j : Nat) : (pySwap? l i j).isSome = true ↔ i < l.length ∧ j < l.length := by
+  unfold pySwap?
+  constructor
+  · intro h
+    split at h
+    · next x y hx hy =>
+      exact ⟨(List.getElem?_eq_some_iff.1 hy).1, (List.getElem?_eq_some_iff.1 hx).1⟩
+    · cases h
+  · rintro ⟨hi, hj⟩
+    rw [List.getElem?_eq_getElem hi, List.getElem?_eq_getElem hj]; rfl
 
 theorem swapAt2_perm [DecidableEq α] (i : Nat) (p : List α × List α) :
     ((swapAt2 i p).1 ++ (swapAt2 i p).2).Perm (p.1 ++ p.2) := by
@@ -344,6 +355,94 @@ theorem mutUniformIntLoop_isSome (trip : List (Nat × Int × Int)) (ds : List (O
         simp only [mutUniformIntLoop, randint, List.getElem_cons_zero] at this ⊢
         rw [if_pos this]
         exact ih ds _ (by simpa using hlen) hrest
+
+/-- a `randint` answer outside the bounds zipped to its position makes the model reject the tape -/
+theorem mutUniformIntLoop_reject (trip : List (Nat × Int × Int)) (ds : List (Option Int)) (ind : List Int)
+    (k : Nat) (hk : k < trip.length) (v : Int) (hv : ds[k]? = some (some v))
+    (hout : ¬ (trip[k].2.1 ≤ v ∧ v ≤ trip[k].2.2)) : mutUniformIntLoop trip ds ind = none := by
+  induction trip generalizing ds ind k with
+  | nil => simp at hk
+  | cons t rest ih =>
+    obtain ⟨i, xl, xu⟩ := t
+    cases ds with
+    | nil => simp at hv
+    | cons d ds =>
+      cases k with
+      | zero =>
+        simp only [List.getElem?_cons_zero, Option.some.injEq] at hv
+        subst hv
+        simp only [List.getElem_cons_zero] at hout
+        simp only [mutUniformIntLoop, randint, if_neg hout]
+      | succ k =>
+        simp only [List.getElem?_cons_succ] at hv
+        simp only [List.getElem_cons_succ] at hout
+        have hk' : k < rest.length := by simpa using hk
+        cases d with
+        | none => simp only [mutUniformIntLoop]; exact ih ds ind k hk' hv hout
+        | some w =>
+          simp only [mutUniformIntLoop]
+          cases randint xl xu w with
+          | none => rfl
+          | some w' => exact ih ds _ k hk' hv hout
+
+/-- the draw made for position `j` lands on gene `j`, all other genes keep their value -/
+theorem mutUniformIntLoop_exact (n s : Nat) (bs : List (Int × Int)) (ds : List (Option Int)) (ind out : List Int)
+    (hn : n ≤ bs.length) (hs : s + n ≤ ind.length)
+    (h : mutUniformIntLoop ((List.range' s n).zip bs) ds ind = some out) (j : Nat) :
+    out[j]? = if s ≤ j ∧ j < s + n then (match ds[j - s]? with | some (some v) => some v | _ => ind[j]?) else ind[j]? := by
+  induction n generalizing s bs ds ind with
+  | zero =>
+    simp only [List.range'_zero, List.zip_nil_left, mutUniformIntLoop, Option.some.injEq] at h
+    subst h
+    have : ¬ (s ≤ j ∧ j < s + 0) := by omega
+    rw [if_neg this]
+  | succ n ih =>
+    cases bs with
+    | nil => simp at hn
+    | cons b bs =>
+      simp only [List.range'_succ, List.zip_cons_cons] at h
+      cases ds with
+      | nil => simp [mutUniformIntLoop] at h
+      | cons d ds =>
+        have hn' : n ≤ bs.length := by simpa using hn
+        have shift : ∀ (e : j ≠ s), (s + 1 ≤ j ∧ j < s + 1 + n) → (d :: ds)[j - s]? = ds[j - (s + 1)]? := by
+          intro e hc
+          have : j - s = (j - (s + 1)) + 1 := by omega
+          rw [this, List.getElem?_cons_succ]
+        cases d with
+        | none =>
+          simp only [mutUniformIntLoop] at h
+          rw [ih (s + 1) bs ds ind hn' (by omega) h]
+          by_cases e : j = s
+          · subst e
+            have c1 : ¬ (j + 1 ≤ j ∧ j < j + 1 + n) := by omega
+            have c2 : j ≤ j ∧ j < j + (n + 1) := by omega
+            rw [if_neg c1, if_pos c2]; simp
+          · by_cases c : s + 1 ≤ j ∧ j < s + 1 + n
+            · have c2 : s ≤ j ∧ j < s + (n + 1) := by omega
+              rw [if_pos c, if_pos c2, shift e c]
+            · have c2 : ¬ (s ≤ j ∧ j < s + (n + 1)) := by omega
+              rw [if_neg c, if_neg c2]
+        | some v =>
+          simp only [mutUniformIntLoop] at h
+          cases hr : randint b.1 b.2 v with
+          | none => simp [hr] at h
+          | some w =>
+            simp only [hr] at h
+            obtain ⟨rfl, _, _⟩ := randint_some _ _ _ _ hr
+            rw [ih (s + 1) bs ds (ind.set s w) hn' (by simp; omega) h]
+            by_cases e : j = s
+            · subst e
+              have c1 : ¬ (j + 1 ≤ j ∧ j < j + 1 + n) := by omega
+              have c2 : j ≤ j ∧ j < j + (n + 1) := by omega
+              rw [if_neg c1, if_pos c2]
+              simp [List.getElem?_set]; omega
+            · have hset : (ind.set s w)[j]? = ind[j]? := by simp [List.getElem?_set, Ne.symm e]
+              by_cases c : s + 1 ≤ j ∧ j < s + 1 + n
+              · have c2 : s ≤ j ∧ j < s + (n + 1) := by omega
+                rw [if_pos c, if_pos c2, shift e c, hset]
+              · have c2 : ¬ (s ≤ j ∧ j < s + (n + 1)) := by omega
+                rw [if_neg c, if_neg c2, hset]
 
 /-! ### specification vocabulary used by the property theorems -/
 
